@@ -82,6 +82,8 @@ impl Environment {
 
     /// Insert or update a binding in the local scope
     pub fn insert(&self, key: String, value: Value) {
+        #[cfg(blots_verif)]
+        verif_hooks::record_insert(self.parent.is_none(), &key, self.contains_key(&key));
         match &self.local {
             LocalBindings::Owned(map) => {
                 map.borrow_mut().insert(key, value);
@@ -172,5 +174,45 @@ impl Environment {
     /// Useful for completion
     pub fn keys(&self) -> impl Iterator<Item = String> {
         self.flatten().into_keys()
+    }
+}
+
+/// Verification hooks (compiled only with `--cfg blots_verif`): a thread-local log of scope
+/// insertions, empty and inert unless a harness switches it on.
+#[cfg(blots_verif)]
+pub mod verif_hooks {
+    use std::cell::RefCell;
+
+    #[derive(Debug, Clone)]
+    pub struct InsertEvent {
+        /// the insertion went into a root environment (no parent scope)
+        pub root: bool,
+        pub key: String,
+        /// the key was already visible from that scope before the insertion
+        pub existed: bool,
+    }
+
+    thread_local! {
+        static INSERTS: RefCell<Option<Vec<InsertEvent>>> = const { RefCell::new(None) };
+    }
+
+    pub fn start() {
+        INSERTS.with(|l| *l.borrow_mut() = Some(Vec::new()));
+    }
+
+    pub fn take() -> Vec<InsertEvent> {
+        INSERTS.with(|l| l.borrow_mut().take().unwrap_or_default())
+    }
+
+    pub fn record_insert(root: bool, key: &str, existed: bool) {
+        INSERTS.with(|l| {
+            if let Some(log) = l.borrow_mut().as_mut() {
+                log.push(InsertEvent {
+                    root,
+                    key: key.to_string(),
+                    existed,
+                });
+            }
+        });
     }
 }
